@@ -305,3 +305,10 @@ def flow_mod_releases_its_buffer(b):
                                         and called(b, "buffer")[1][1] == bid),
     "no_buffer_no_release": lambda res: bid != 0xffffffff or called(b, "buffer")[0] == 0,
   })
+
+
+# ---------------------------------------------------------------- the configured miss length is the one that was set
+# ("at most the configured miss length of data"): set-config stores every value, 0 included - the C13 unit, re-discharged
+import contracts.c13_replies as _R
+unit(P, target=SW + "SoftwareSwitchBase._rx_set_config / _rx_get_config_request",
+     name="the_configured_miss_length_is_what_set_config_sent")(_R.get_and_set_config)
